@@ -43,9 +43,13 @@ def rt_instances():
 
 V = dict(mi=1, mi_fp=2, prio_mi=3, user_mi=4, xaddr_mi=5, unk_mi=6, mi_prio=7, fp=8, mi_mi=9)
 VDEC = dict(mi=2, mi_fp=3, prio_mi=3, user_mi=3, xaddr_mi=3, unk_mi=3, mi_prio=3, fp=2, mi_mi=3)   # = maximal number of attributes walked
-MI_BOUND = 'buffer with fixed attribute layout [%s]: header, payload bytes and the length field of the last attribute symbolic; key of 1..%d symbolic bytes (0: empty key)'
-def MI(var, kmax, tiers=QT, name=None, **kw):
-    return S(name or ('acc_%s_k%d' % (var, kmax)), 'h_dec_mi', (V[var], kmax, 0, 0), cap=72, dec=VDEC[var], tiers=tiers, bound=MI_BOUND % (var, kmax), cdefs={'VP_UTF8_LATIN1': 1}, **kw)
+MI_BOUND = 'datagram with fixed attribute layout [%s]: header and all payload bytes symbolic%s; key of 1..%d symbolic bytes (0: empty key)'
+def MI(var, kmax, sym=0, tiers=QT, name=None, **kw):
+    """sym=1: the length field of the last attribute is symbolic too (costs one fully symbolic extra pass of the attribute loop)"""
+    o = dict(solver='cadical', mem_gb=6) if sym else {}
+    o.update(kw)
+    return S(name or ('acc_%s_k%d%s' % (var, kmax, '_len' if sym else '')), 'h_dec_mi', (V[var], kmax, 0, sym), cap=72, dec=VDEC[var], tiers=tiers,
+             bound=MI_BOUND % (var, ', length field of the last attribute symbolic' if sym else '', kmax), cdefs={'VP_UTF8_LATIN1': 1}, **o)
 
 ANY_BOUND = 'arbitrary %d-byte datagram (only the header length field is fixed to the valid value %d), key of 1..%d symbolic bytes'
 def ANY(entry, name, n, kmax, tiers, dec, **kw):
@@ -60,8 +64,9 @@ stun_instances = rt_instances() + [
     S('enc_err', 'h_enc_err', solver='cadical', bound='error class 3..6 and number 0..99 symbolic, empty reason phrase'),
     S('dec_err_0', 'h_dec_err', (0, 0, 0, 0), dec=1, bound='class and number bytes arbitrary, reason phrase of 0 bytes'),
     S('dec_err_3', 'h_dec_err', (3, 0, 0, 0), dec=1, bound='class and number bytes arbitrary, reason phrase of 3 ASCII bytes (no NUL)'),
-    MI('mi', 2), MI('mi', 0), MI('mi_fp', 2), MI('prio_mi', 1), MI('user_mi', 1), MI('xaddr_mi', 1), MI('unk_mi', 1), MI('mi_prio', 1), MI('mi_mi', 1),
-    MI('fp', 0), MI('fp', 1), MI('mi_fp', 0, tiers=T), MI('prio_mi', 3, tiers=T), MI('mi', 8, tiers=T),
+    MI('mi', 2, sym=1), MI('fp', 0, sym=1),
+    MI('mi', 1), MI('mi_fp', 2), MI('prio_mi', 1), MI('user_mi', 1), MI('xaddr_mi', 1), MI('unk_mi', 1), MI('mi_prio', 1), MI('mi_mi', 1), MI('fp', 1), MI('mi_fp', 0),
+    MI('mi', 0, sym=1, tiers=T), MI('fp', 1, sym=1, tiers=T), MI('mi', 8, sym=1, tiers=T), MI('mi_fp', 2, sym=1, tiers=T), MI('prio_mi', 3, sym=1, tiers=T), MI('xaddr_mi', 2, sym=1, tiers=T),
     ANY('h_dec_any', 'safe_any20', 20, 1, QT, 1), ANY('h_dec_any', 'safe_any24', 24, 1, QT, 2), ANY('h_dec_any', 'safe_any28', 28, 1, T, 3, timeout_s=2400, mem_gb=14, object_bits=12),
     S('dec_short', 'h_dec_short', cap=40, dec=1, object_bits=12, bound='datagrams of every size 0..19, arbitrary bytes'),
     S('dec_badlen', 'h_dec_badlen', (28, 0, 0, 0), cap=40, dec=1, bound='28-byte datagram: arbitrary header whose length field is not 8, followed by a well-formed PRIORITY attribute'),
